@@ -31,6 +31,69 @@ def _launch(prop, shard, out, seed, tier, workdir):
     return subprocess.Popen(cmd, cwd=env.VERIF, env=e, stdout=log, stderr=subprocess.STDOUT), log
 
 
+def _line_coverage(prop, seen):
+    """which lines of the property's anchor files ran while the monitors watched (sys.monitoring, vp/cover.py): per file the
+    count; per anchored function (named, or pointed at by a line number, in the property's anchors) the lines that never ran
+    in any shard of this run. Interpreted shards report the bodies of @njit kernels too; torch.jit.script bodies never report."""
+    import re
+    from . import cover
+    out = {}
+    try:
+        anchors, text = [], ""
+        with open(os.path.join(env.VERIF, "properties.jsonl")) as f:
+            for ln in f:
+                d = json.loads(ln)
+                if d["id"] == prop:
+                    anchors = d["anchors"]["files"]
+                    text = " ; ".join(m.get("where", "") + " " + m.get("name", "") for m in d["anchors"]["mechanism"])
+        words = set(re.findall(r"[A-Za-z_][A-Za-z_0-9]*(?:\.[A-Za-z_][A-Za-z_0-9]*)*", text))
+        words |= set(w.split(".")[-1] for w in words)
+        for rel in anchors:
+            path = os.path.join(env.REPO, rel)
+            if not os.path.exists(path):
+                continue
+            # line references that follow this file's name in the anchor text
+            refs = []
+            for chunk in re.findall(re.escape(rel) + r"([^;]*)", text):
+                for a, b in re.findall(r"l\.(\d+)(?:-(\d+))?", chunk):
+                    refs.append((int(a), int(b or a)))
+            # the anchors' line numbers refer to the pinned commit: translate them to function names there
+            ref_names = set()
+            if refs:
+                try:
+                    import ast
+                    import subprocess
+                    log = subprocess.run(["git", "-C", env.REPO, "log", "--format=%H %s"], capture_output=True, text=True, timeout=60).stdout.splitlines()
+                    base = next(l.split()[0] for l in log if not l.split(" ", 1)[1].startswith("fix:"))
+                    src0 = subprocess.run(["git", "-C", env.REPO, "show", "%s:%s" % (base, rel)], capture_output=True, text=True, timeout=60).stdout
+                    for node in ast.walk(ast.parse(src0)):
+                        if isinstance(node, ast.FunctionDef) and any(node.lineno <= r1 and r0 <= node.end_lineno for r0, r1 in refs):
+                            ref_names.add(node.name)
+                except Exception:
+                    pass
+            exe = cover.executable_lines(path)
+            got = set(seen.get(rel, ())) & exe
+            anchored, others_partial, n_fn, n_full = {}, 0, 0, 0
+            for name, a, b in cover.functions(path):
+                body = set(x for x in exe if a < x <= b)
+                if not body:
+                    continue
+                n_fn += 1
+                miss = sorted(body - got)
+                if not miss:
+                    n_full += 1
+                is_anchor = name in words or name.split(".")[-1] in words or name.split(".")[-1] in ref_names
+                if is_anchor:
+                    anchored[name] = {"lines": len(body), "executed": len(body) - len(miss), "never_executed": miss[:30]}
+                elif miss:
+                    others_partial += 1
+            out[rel] = {"executable_lines": len(exe), "executed_lines": len(got), "functions": n_fn, "functions_fully_executed": n_full,
+                        "anchored_functions": anchored, "other_functions_with_unexecuted_lines": others_partial}
+    except Exception as e:  # evidence only: never a verdict
+        out["error"] = "%s: %s" % (type(e).__name__, e)
+    return out
+
+
 def run_shards(prop, shards, seed, tier, jobs, timeout):
     workdir = tempfile.mkdtemp(prefix="vp-%s-" % prop)
     results = []
@@ -128,6 +191,7 @@ def main(argv=None):
     counts, fails, calls, refusals, samples, spaces, extra = {}, {}, {}, {}, {}, [], {}
     problems, violations, shard_info = [], [], []
     digs = []
+    lines_seen = {}
     for sh, res, err, dig in results:
         if res is None:
             problems.append("shard %s: %s" % (sh["name"], err))
@@ -147,6 +211,8 @@ def main(argv=None):
         extra[sh["name"]] = res["extra"]
         problems += ["shard %s: %s" % (sh["name"], p) for p in res["problems"]]
         violations += res["violations"]
+        for fn, lns in res.get("lines", {}).items():
+            lines_seen.setdefault(fn, set()).update(lns)
         if dig is not None:
             digs.append(dig)
         shard_info.append({"name": sh["name"], "mode": res["mode"], "backend": res["backend"],
@@ -197,6 +263,7 @@ def main(argv=None):
         return 1 if same else 0
 
     verdict = "violated" if new else ("inconclusive" if problems else "held")
+    line_cov = _line_coverage(prop, lines_seen)
     if not a.no_evidence and not a.only:
         ev = {
             "property_id": prop, "tier": tier, "seed": seed, "level": "exploration",
@@ -213,6 +280,7 @@ def main(argv=None):
                 "documented_refusals_observed": refusals,
                 "shards": shard_info,
                 "per_shard_observations": extra,
+                "lines_of_anchor_files_executed_under_the_monitors": line_cov,
                 "known_findings_matched": {k: n for k, (e, n) in matched.items()},
                 "verdict": verdict,
                 "inconclusive_reasons": problems,
